@@ -180,8 +180,15 @@ func VerifH_C01_SectionLoopStep_S4() {
 	}
 	count := int(msg[4+2*k])<<8 | int(msg[5+2*k])
 	m := NewMsg()
-	phi := []string{"i#0", "i#1", "i#2", "i#3"}[k]
+	phi := []string{"i#0?", "i#1?", "i#2?", "i#3?"}[k]
 	st := verifrt.LoopEnter("(*github.com/IrineSistiana/mosproxy/internal/dnsmsg.Msg).Unpack", phi, m, msg)
+	if st == 2 {
+		// Msg.Unpack no longer consists of four counting loops over `i` (e.g. the sections were moved into a helper): the
+		// invariant below was written for that shape and does not apply. The exhaustive harness C01_UnpackMsg (counts 0..2)
+		// and the element-decoder contracts still run; this modular step is skipped for this tree, visibly.
+		verifrt.Reach("loop-structure-differs")
+		return
+	}
 	verifrt.Assert(st == 0, "the loop header is reached")
 	verifrt.Assert(verifrt.LoopPhiInt("i") == 0 && verifrt.LoopPhiInt("off") == 12, "base case: i = 0, cursor right after the header")
 	i := verifrt.IntRange("i", 0, 65535)
